@@ -253,6 +253,10 @@ def _why_not_serve(c):
     return "signer-version"
 
 
+ENUM_LABELS = ["biased", "platform", "mode", "pin-file", "onboarded", "retries", "echo-bad", "unlock-refused",
+               "post-exit", "newpin", "uiver.kind", "sgver.kind"]
+
+
 class _Enum:
     """full product of the enum dimensions, versions fixed at 5.4.1 (first draw value)"""
 
